@@ -42,39 +42,39 @@ type Oblig struct {
 func (o *Oblig) Discharged() bool { return len(o.Failures) == 0 && o.Paths > 0 }
 
 type Unit struct {
-	P      *Prog
-	Name   string
-	Fn     *ssa.Function
-	C      *Contract
-	Pkg    *types.Package
-	sol    *SolverProc
-	decls  []string
-	declS  map[string]bool
-	sent   int
-	sDecl  map[string]bool // struct keys declared
-	fresh  int
-	lits   map[string]Term
-	obs    map[string]*Oblig
-	obSeq  []string
-	ordCnt map[string]int
-	skol   []Term
-	usedContracts map[string]bool
-	abstractions  map[string]int
-	assumptions   map[string]bool
-	paths         int
-	returns       int
-	pruned        int
-	deadline      time.Time
-	timedOut      bool
-	errs          []string
-	defaultTags   []string
-	frameSeq      int
-	siteOrd       map[ssa.Instruction]map[string]int
-	queries       int
-	cacheRes      map[string]string
-	loopLabels    map[*ssa.BasicBlock]string
-	curFrameTop   *Frame
-	covers        map[string]bool
+	P              *Prog
+	Name           string
+	Fn             *ssa.Function
+	C              *Contract
+	Pkg            *types.Package
+	sol            *SolverProc
+	decls          []string
+	declS          map[string]bool
+	sent           int
+	sDecl          map[string]bool // struct keys declared
+	fresh          int
+	lits           map[string]Term
+	obs            map[string]*Oblig
+	obSeq          []string
+	ordCnt         map[string]int
+	skol           []Term
+	usedContracts  map[string]bool
+	abstractions   map[string]int
+	assumptions    map[string]bool
+	paths          int
+	returns        int
+	pruned         int
+	deadline       time.Time
+	timedOut       bool
+	errs           []string
+	defaultTags    []string
+	frameSeq       int
+	siteOrd        map[ssa.Instruction]map[string]int
+	queries        int
+	cacheRes       map[string]string
+	loopLabels     map[*ssa.BasicBlock]string
+	curFrameTop    *Frame
+	covers         map[string]bool
 	entryFresh     int
 	modCache       *modCacheT
 	assertCallSeen map[int]bool
@@ -138,12 +138,10 @@ func (u *Unit) flushDecls() {
 func (u *Unit) needSort(so Sort) {
 	s := string(so)
 	if strings.HasPrefix(s, "S_") {
-		for _, si := range u.P.TW.structs {
-			if si.Sort == so {
-				u.declStruct(si)
-				return
-			}
+		if si := u.P.TW.StructBySort(so); si != nil {
+			u.declStruct(si)
 		}
+		return
 	}
 	if strings.HasPrefix(s, "(Array ") {
 		// (Array A B): declare component sorts
@@ -186,7 +184,7 @@ func (u *Unit) declStruct(si *StructInfo) {
 	}
 	u.sDecl[si.Key] = true
 	for _, d := range si.Deps {
-		u.declStruct(u.P.TW.structs[d])
+		u.declStruct(u.P.TW.StructByKey(d))
 	}
 	for _, f := range si.Fields {
 		u.needSort(f.Sort)
@@ -298,7 +296,7 @@ func (u *Unit) typeInv(st *State, v Term, t types.Type) {
 			u.sliceAxioms(v)
 		}
 	default:
-		if si, ok := u.P.TW.structs[typeKeyOfSort(u.P.TW, v.Sort)]; ok {
+		if si := u.P.TW.StructBySort(v.Sort); si != nil {
 			for _, f := range si.Fields {
 				if f.Sort == SInt {
 					st.Assume(inRange(f.Type, u.Field(v, si, indexOfField(si, f.Name))))
@@ -306,15 +304,6 @@ func (u *Unit) typeInv(st *State, v Term, t types.Type) {
 			}
 		}
 	}
-}
-
-func typeKeyOfSort(w *TypeWorld, so Sort) string {
-	for k, si := range w.structs {
-		if si.Sort == so {
-			return k
-		}
-	}
-	return ""
 }
 
 func indexOfField(si *StructInfo, name string) int {
@@ -447,6 +436,12 @@ func (u *Unit) Prove(st *State, name, class string, tags []string, pos token.Pos
 	f := &Failure{Asserts: append(pcStrings(st.PC), Not(goal).String()), Goal: goal.String(), Result: r, Trace: append([]string(nil), st.Trace...)}
 	for _, v := range values {
 		f.Values = append(f.Values, v.String())
+		if v.Sort == SStr {
+			f.Values = append(f.Values, "(slen "+v.String()+")")
+			for i := 0; i < 24; i++ {
+				f.Values = append(f.Values, fmt.Sprintf("(sat %s %d)", v.String(), i))
+			}
+		}
 	}
 	o.Failures = append(o.Failures, f)
 	st.Assume(goal)
